@@ -16,7 +16,12 @@ Writes lean/XmpModel/Gen/C03Guards.lean from /repo's *current* sources:
       compare  only compared with another sample number
       trusted  used as an index / stored without a range test
     `sidSites_known` (XmpProofs/LoadPostPlayer.lean, `decide`) pins the trusted
-    ones, so a new unguarded use breaks a proof obligation.
+    ones, so a new unguarded use breaks a proof obligation;
+  * the writable process-wide data (file-scope and function-scope `static`
+    non-const objects, from `objdump -t` on the compiled objects) of the common
+    load path: load.c, load_helpers.c, scan.c, loaders/common.c, loaders/sample.c,
+    loaders/iff.c.  `loadPath_no_statics` requires the list to be empty: the
+    post-load path must not share state between contexts.
 """
 import os
 import re
@@ -113,6 +118,27 @@ def sid_sites():
     return sorted(set(sites))
 
 
+# objects of the common load path: no writable process-wide data may live there (a `static` scratch table
+# in libxmp_scan_sequences would be shared by contexts loading concurrently)
+LOAD_PATH_OBJECTS = ("src/load.c.o", "src/load_helpers.c.o", "src/scan.c.o", "src/loaders/common.c.o",
+                     "src/loaders/sample.c.o", "src/loaders/iff.c.o")
+
+
+def load_path_statics():
+    """(object, symbol, section) of every writable data object (.data/.bss/COMMON, function-scope statics
+    included) in the objects of the common load path, from `objdump -t` on the build of /repo's tree"""
+    import gen_globals          # C06's translator: the same object walk (read-only use)
+    bdir = vlib.build_repo("asan")
+    res, seen = [], set()
+    for o in gen_globals.list_objects(bdir):
+        rel = o.split(".dir/", 1)[-1]
+        if rel in LOAD_PATH_OBJECTS:
+            seen.add(rel)
+            for name, sec, size in gen_globals.writable_symbols(o):
+                res.append((rel[:-2], name, sec))
+    return sorted(res), sorted(seen)
+
+
 def generate():
     src = os.path.join(vlib.REPO, "src")
     ph = strip_comments(open(os.path.join(src, "player.h")).read())
@@ -146,9 +172,16 @@ def generate():
               "/-- reads of `sub->sid` outside the loaders: (file below src/, enclosing function, class) -/",
               "def sidSites : List (String × String × SidUse) := ["]
     lines.append(",\n".join('  ("%s", "%s", .%s)' % s for s in sites))
+    statics, seen = load_path_statics()
+    lines += ["]", "", "/-- the objects of the common load path that were inspected (`objdump -t`) -/",
+              "def loadPathObjects : List String := [" + ", ".join('"%s"' % o[:-2] for o in seen) + "]", "",
+              "/-- writable process-wide data (file-scope or function-scope `static`, non-const) in those objects:",
+              "(source file, symbol, section) -/",
+              "def loadPathStatics : List (String × String × String) := ["]
+    lines.append(",\n".join('  ("%s", "%s", "%s")' % t for t in statics))
     lines += ["]", "", "end Xmp.Gen.C03Guards", ""]
     changed = vlib.write_if_changed(OUT, "\n".join(lines))
-    return {"macros": macros, "shapes": shapes, "sites": sites, "changed": changed}
+    return {"macros": macros, "shapes": shapes, "sites": sites, "statics": statics, "objects": seen, "changed": changed}
 
 
 if __name__ == "__main__":
